@@ -265,15 +265,18 @@ fn case_json(ty: &TypeSpec, root: &Root, hist: &[Step], step: Step, fail_at: Opt
     let failed = fail_at.map(|k| all[k.min(all.len() - 1)]);
     let mut c = json!({
         "elem": ty.name,
-        "root": root.text(),
-        "history": hist.iter().map(|s| s.text()).collect::<Vec<_>>(),
-        "op": step.text(),
-        "op_kind": step.op.kind(),
-        "op_side": step.side.name(),
         "mk": ELEMENTS.iter().find(|e| e.0 == ty.name).map(|e| e.1),
+        "root": root.text(),
+        "history": hist.iter().map(|s| s.text()).collect::<Vec<_>>().join("; "),
+        "op": step.text(),
     });
     if let Some(f) = failed {
-        c["failed_step"] = json!({"text": f.text(), "kind": f.op.kind(), "side": f.side.name(), "index": fail_at});
+        // the step whose result (or the state after it) disagreed: `op` unless
+        // index < number of history steps (then a step of the replayed prefix)
+        c["failed_step"] = json!({"kind": f.op.kind(), "side": f.side.name(), "index": fail_at});
+        if fail_at != Some(hist.len()) {
+            c["failed_step"]["text"] = json!(f.text());
+        }
         if let (Some(m), true) = (m_before, fail_at == Some(hist.len())) {
             match f.op {
                 Op::Contains { h, v } | Op::Index { h, v } => {
@@ -393,7 +396,7 @@ fn run_typed<E: Elem>(u: &UnitSpec, p: &Plan, cx: &mut Cx) {
         if off == 0 {
             if let Some(s) = steps.iter().rev().find(|s| matches!(s.op, Op::Concat { .. })) {
                 cx.sample(json!({"elem": E::NAME, "root": root.text(),
-                    "history": hist.iter().map(|s| s.text()).collect::<Vec<_>>(),
+                    "history": hist.iter().map(|s| s.text()).collect::<Vec<_>>().join("; "),
                     "then_every_enabled_operation_eg": s.text(), "enabled_operations": steps.len()}));
             }
         }
